@@ -235,6 +235,9 @@ func main() {
 		s.Watchdog = 20 * 1000 * 1000 // 20ms: the second request blocks on the handle's mutex without telling us
 		gs := &gatedRO{inner: st, hook: s.Hook}
 		fuse := desync.VerifIndexFileRead(idx, gs)
+		// every second scenario: each request comes in on a handle of its own, opened on the same file node
+		open := desync.VerifIndexFileOpen(idx, gs)
+		perHandle := c%2 == 0
 		type req struct{ off, m int }
 		reqs := []req{{r.Intn(L), 1 + r.Intn(2*max)}, {r.Intn(L), 1 + r.Intn(2*max)}, {r.Intn(L), 1 + r.Intn(2*max)}}
 		results := make([]map[string]interface{}, len(reqs))
@@ -245,8 +248,12 @@ func main() {
 				go func(i int, q req) {
 					defer wg.Done()
 					s.Name(fmt.Sprintf("r%d", i+1))
+					read := fuse
+					if perHandle {
+						read = open()
+					}
 					s.Hook("fuse.call")
-					b, errno := fuse(make([]byte, q.m), int64(q.off))
+					b, errno := read(make([]byte, q.m), int64(q.off))
 					results[i] = trace.M("ev", "fuse", "off", q.off, "m", q.m, "n", len(b), "data", ints(b), "errno", errno)
 					s.Leave()
 				}(i, q)
